@@ -16,6 +16,18 @@ CHECKS = {
         "marker metadata unchanged. Absence is not established; intermediate hybrids are not observable directly.",
         "Counters < 10**7; at least one progeny in total; starting copy at the first marker unconstrained.",
         "DESIGN.md §3 C01"),
+    "C02": (
+        "Hypothesis-generated layouts/maps; exact binomial tests of realised recombination against declared probabilities at fixed seeds",
+        "Generated layouts (2..10 markers, 1..3 chromosomes, free crossover vectors with exact 0/0.5 and forced adjacent "
+        "heterogeneity, or vectors derived by pybrops from a shuffled genetic map with Haldane/Kosambi), both kernels modules and "
+        "all seven protocols, 20000 (quick) / 200000 (thorough) gametes per case read back through tagged founders. Exact "
+        "two-sided binomial tests: per-interval crossover frequency, segregation 1/2, independence between intervals, Haldane "
+        "composition over non-adjacent markers (from the map, not from xoprob), independent assortment of chromosome starts, "
+        "independence between gametes; stored xoprob equals the map function of the map distance (1e-12). Total false-alarm "
+        "budget 1e-9 per run. Convergence 'in the limit' is replaced by finite samples: deviations below ~0.026 (quick) / "
+        "~0.008 (thorough) are not detectable.",
+        "Fixed-seed statistical test; trusts scipy.stats.binomtest; numpy generator streams assumed to be good uniform sources.",
+        "DESIGN.md §3 C02"),
     "C09": (
         "Hypothesis-generated genotype matrices vs exact integer/Fraction definitions (exact 0/1 boundary)",
         "Generated-input search: phased/unphased matrices (ploidy 1/2/4, 1..300 taxa with the sizes where "
